@@ -6,62 +6,10 @@ here say that this value is never returned.
 -/
 import DtailModel.Generated.Code
 import DtailModel.Lemmas.GoRT
+import DtailModel.Lemmas.LoopRules
 set_option autoImplicit false
 namespace Dtail.GenQuery
 open Dtail Dtail.Go Dtail.Gen.MaprQuery
-
-/-- a loop all of whose early returns, and whose normal end, satisfy `P` -/
-theorem goRange_rule {α ρ σ : Type} (P : ρ → Prop) (l : List α) (body : σ → α → LoopStep ρ σ) (after : σ → ρ)
-    (hbody : ∀ s x, x ∈ l → ∀ r, body s x = .ret r → P r) (hafter : ∀ s, P (after s)) (s0 : σ) :
-    P (goRange l s0 body after) := by
-  induction l generalizing s0 with
-  | nil => exact hafter s0
-  | cons x xs ih =>
-    rw [goRange_cons]
-    cases hb : body s0 x with
-    | ret r => exact hbody s0 x (by simp) r hb
-    | next s => exact ih (fun s x hx => hbody s x (by simp [hx])) s
-    | brk s => exact hafter s
-
-theorem mem_goEnum {α : Type} (l : List α) (i : Int) (x : α) (h : (i, x) ∈ goEnum l) : 0 ≤ i ∧ i < (l.length : Int) := by
-  unfold goEnum at h
-  obtain ⟨⟨a, k⟩, hm, he⟩ := List.mem_map.1 h
-  simp only [Prod.mk.injEq] at he
-  obtain ⟨rfl, rfl⟩ := he
-  have := List.mem_zipIdx hm
-  simp at this
-  omega
-
-theorem ite_rule {α : Type} (P : α → Prop) {c : Prop} [Decidable c] {a b : α} (ha : c → P a) (hb : ¬c → P b) :
-    P (if c then a else b) := by
-  by_cases h : c
-  · rw [if_pos h]; exact ha h
-  · rw [if_neg h]; exact hb h
-
-/-- what one round of a loop may do: return a good value, go on in a good state, or leave the loop for a good end -/
-def StepOk {ρ σ : Type} (P : ρ → Prop) (I : σ → Prop) (after : σ → ρ) : LoopStep ρ σ → Prop
-  | .ret r => P r
-  | .next s => I s
-  | .brk s => P (after s)
-
-/-- a loop with an invariant over the state and the elements still to come -/
-theorem goRange_inv {α ρ σ : Type} (P : ρ → Prop) (I : σ → List α → Prop) (body : σ → α → LoopStep ρ σ) (after : σ → ρ)
-    (hbody : ∀ s x xs, I s (x :: xs) → StepOk P (fun s' => I s' xs) after (body s x))
-    (hafter : ∀ s, I s [] → P (after s)) :
-    ∀ l s0, I s0 l → P (goRange l s0 body after) := by
-  intro l
-  induction l with
-  | nil => intro s0 h; exact hafter s0 h
-  | cons x xs ih =>
-    intro s0 h
-    rw [goRange_cons]
-    have hb := hbody s0 x xs h
-    cases hbs : body s0 x with
-    | ret r => rw [hbs] at hb; exact hb
-    | next s => rw [hbs] at hb; exact ih s hb
-    | brk s => rw [hbs] at hb; exact hb
-
-theorem length_goEnum {α : Type} (l : List α) : (goEnum l).length = l.length := by simp [goEnum]
 
 /-- what `tokensConsume` returns: never a panic; neither part is longer than the input -/
 def ConsumeOk (tokens : List token) (r : Outcome (List token × List token)) : Prop :=
@@ -143,25 +91,6 @@ theorem tokensConsumeOptional_len (ext : Ext) (tokens : List token) (w : GoStrin
   · exact ⟨_, h, Nat.le_refl _⟩
   · exact ⟨_, h, by simp⟩
 
-/-- the function returned a value (possibly with a Go `error` in it): it did not panic -/
-def IsOk {α : Type} (o : Outcome α) : Prop := ∃ v, o = .ok v
-
-theorem len_ne_two {α : Type} (l : List α) (h : ((GoLen.len l : Int) != 2) = false) : l.length = 2 := by
-  have : (GoLen.len l : Int) = (l.length : Int) := rfl
-  rw [this] at h
-  simp at h
-  omega
-
-theorem IsOk_ite {α : Type} {c : Prop} [Decidable c] {a b : Outcome α} (ha : c → IsOk a) (hb : ¬c → IsOk b) :
-    IsOk (if c then a else b) := by
-  by_cases h : c
-  · rw [if_pos h]; exact ha h
-  · rw [if_neg h]; exact hb h
-
-theorem inRange_of_len {α : Type} (l : List α) (i : Int) (h0 : 0 ≤ i) (h : i < (l.length : Int)) : goInRange l i = true := by
-  simp only [goInRange, decide_eq_true_eq]
-  exact ⟨h0, h⟩
-
 /-- `makeSelectConditions`' closure `parse` never panics -/
 theorem makeSelectConditions_parse_ok (ext : Ext) (t : token) : IsOk (makeSelectConditions_parse ext t) := by
   unfold makeSelectConditions_parse
@@ -189,12 +118,6 @@ theorem makeSelectConditions_ok (ext : Ext) (tokens : List token) : IsOk (makeSe
     · cases hr; exact ⟨_, rfl⟩
     · cases hr
   · intro s; exact ⟨_, rfl⟩
-
-theorem sliceOk_of_len {α : Type} (l : List α) (lo : Int) (h0 : 0 ≤ lo) (h : lo ≤ (l.length : Int)) :
-    goSliceOk l lo (GoLen.len l) = true := by
-  have : (GoLen.len l : Int) = (l.length : Int) := rfl
-  simp only [goSliceOk, this, decide_eq_true_eq]
-  omega
 
 /-- what `whereCondition.fill` returns on at least three tokens: never a panic; without an error the rest is the input
     without its first three tokens -/
@@ -237,25 +160,6 @@ theorem makeWhereConditions_parse_ok (ext : Ext) (tokens : List token) : ParseOk
        obtain ⟨w, r, e, rfl, hr⟩ := hk
        exact ⟨_, _, _, rfl, fun h => by rw [hr h, List.length_drop]; omega⟩)
     | (apply ite_rule (ParseOk tokens) <;> intro _))
-
-theorem goWhile_rule {ρ σ : Type} (P : ρ → Prop) (μ : σ → Nat) (cond : σ → Bool) (body : σ → LoopStep ρ σ) (after : σ → ρ) (out : ρ)
-    (hbody : ∀ s, cond s = true → match body s with | .ret r => P r | .next s' => μ s' < μ s | .brk s' => P (after s'))
-    (hafter : ∀ s, P (after s)) :
-    ∀ fuel s, μ s < fuel → P (goWhile fuel s cond body after out) := by
-  intro fuel
-  induction fuel with
-  | zero => intro s h; omega
-  | succ n ih =>
-    intro s h
-    unfold goWhile
-    by_cases hc : cond s = true
-    · rw [if_pos hc]
-      have hb := hbody s hc
-      cases hbs : body s with
-      | ret r => rw [hbs] at hb; exact hb
-      | next s' => rw [hbs] at hb; exact ih s' (by omega)
-      | brk s' => rw [hbs] at hb; exact hb
-    · rw [if_neg hc]; exact hafter s
 
 /-- `makeWhereConditions` never panics (and does not run out of fuel) when the fuel exceeds the number of tokens -/
 theorem makeWhereConditions_ok (ext : Ext) (tokens : List token) (hf : tokens.length < ext.fuel) :
@@ -341,37 +245,6 @@ theorem makeSetConditions_ok (ext : Ext) (tokens : List token) (hf : tokens.leng
       omega
   · rintro ⟨err, st, toks⟩
     exact ⟨_, rfl⟩
-
-/-- a `for cond` loop with an invariant and a measure that every further round decreases -/
-theorem goWhile_inv {ρ σ : Type} (P : ρ → Prop) (I : σ → Prop) (μ : σ → Nat) (cond : σ → Bool) (body : σ → LoopStep ρ σ)
-    (after : σ → ρ) (out : ρ)
-    (hbody : ∀ s, I s → cond s = true → StepOk P (fun s' => I s' ∧ μ s' < μ s) after (body s))
-    (hafter : ∀ s, I s → P (after s)) :
-    ∀ fuel s, I s → μ s < fuel → P (goWhile fuel s cond body after out) := by
-  intro fuel
-  induction fuel with
-  | zero => intro s _ h; omega
-  | succ n ih =>
-    intro s hI h
-    unfold goWhile
-    by_cases hc : cond s = true
-    · rw [if_pos hc]
-      have hb := hbody s hI hc
-      cases hbs : body s with
-      | ret r => rw [hbs] at hb; exact hb
-      | next s' => rw [hbs] at hb; exact ih s' hb.1 (by have := hb.2; omega)
-      | brk s' => rw [hbs] at hb; exact hb
-    · rw [if_neg hc]; exact hafter s hI
-
-theorem len_list {α : Type} (l : List α) : (GoLen.len l : Int) = (l.length : Int) := rfl
-
-theorem guard_rule {α : Type} (P : α → Prop) {c : Prop} [Decidable c] {a b : α} (hc : c) (ha : P a) : P (if c then a else b) := by
-  rw [if_pos hc]; exact ha
-
-macro "guard_tac" : tactic => `(tactic| (
-  simp only [goInRange, goSliceOk, len_list, decide_eq_true_eq, beq_iff_eq, Bool.not_eq_true, decide_eq_false_iff_not,
-    bne_iff_ne, ne_eq, beq_eq_false_iff_ne] at *
-  omega))
 
 /-- **`Query.parseTokens` never panics** and does not run out of fuel when the fuel exceeds the number of tokens -/
 theorem parseTokens_ok (ext : Ext) (q : Query) (tokens : List token) (hf : tokens.length < ext.fuel) :
